@@ -5,8 +5,7 @@ CONSTANTS
   Limits <- MCLimits
   HBMode = "on"
   Table = "GSUB"
-  MaxL = 3
-  TwoSubs = FALSE
+  Shapes = {"2x2", "3x1"}
 INIT MInit
 NEXT RNext
 CONSTRAINTS Bounded NoStuckLig GenEmit Stat
